@@ -846,19 +846,24 @@ class CxxParser:
                 rawtoks.extend(self._consume_balanced_tokens(tok))
             # .. and that's it?
 
-        # this is either a parenthesized expression or a primary clause
-        elif tok.type == "(":
-            rawtoks.extend(self._consume_balanced_tokens(tok))
+        # otherwise a sequence of primary clauses, each a parenthesized
+        # expression or a name, joined by operators
         else:
             while True:
                 if tok.type == "(":
                     rawtoks.extend(self._consume_balanced_tokens(tok))
+                    tok = self.lex.token()
                 else:
                     tok = self._parse_requires_segment(tok, rawtoks)
 
                 # If this is not an operator of some kind, we don't know how
                 # to proceed so let the next parser figure it out
                 if tok.value not in self._expr_operators:
+                    break
+
+                # '==' arrives as two '=' tokens; a single '=' belongs to
+                # what follows the clause (= delete, = default, = 0)
+                if tok.value == "=" and not self.lex.token_peek_if("="):
                     break
 
                 rawtoks.append(tok)
